@@ -113,6 +113,8 @@ type Engine struct {
 
 var cur *Engine
 
+const maxFineDecisions = 200_000
+
 var SiteHits = map[int32]int64{} // cumulative over the process (coverage)
 
 func install() {
@@ -129,7 +131,7 @@ func install() {
 		t.steps++
 		if t.steps > t.budget && !t.aborting {
 			t.aborting = true
-			panic(abortSentinel{fmt.Sprintf("step budget %d exceeded", t.budget)})
+			panic(abortSentinel{fmt.Sprintf("step budget %d exceeded at\n%s", t.budget, trimStack(string(debug.Stack())))})
 		}
 		if e.burstOn && !t.aborting {
 			e.burst--
@@ -368,6 +370,11 @@ func (v env) Instrumented() bool                 { return true }
 
 func (e *Engine) chooseBurst() int64 {
 	b := e.w.Sched.Burst
+	if e.res.Decisions > maxFineDecisions {
+		// bound the cost of one world: after this many decisions hot yields stop being
+		// scheduling points (blocking operations still are); deterministic, so it replays
+		b = 0
+	}
 	if b <= 0 {
 		e.burstOn = false
 		return 0
@@ -616,7 +623,7 @@ func KnobsAvailable() []string {
 func Run(t *testing.T, w *world.World, keepLog bool) *Result {
 	res := &Result{Probes: map[string]int{}, Faults: map[string]int{}}
 	h := fnv.New64a()
-	e := &Engine{w: w, res: res, h: h, hsum: h.Sum64, keepLog: keepLog, defBudget: 5_000_000, lastRun: -1}
+	e := &Engine{w: w, res: res, h: h, hsum: h.Sum64, keepLog: keepLog, defBudget: 2_000_000, lastRun: -1}
 	e.restarts = map[int]bool{}
 	for _, r := range w.Restarts {
 		e.restarts[r] = true
@@ -665,7 +672,7 @@ func (e *Engine) bubble() {
 			e.rng = world.NewRng(1)
 			e.burstOn = false
 			e.outs = make([]*tasks.Outcome, len(w.Tasks))
-			e.defBudget = 50_000_000
+			e.defBudget = 5_000_000
 			e.startTop(i)
 			save := w.Sched
 			w.Sched = world.Sched{Strategy: "serial"}
@@ -688,7 +695,7 @@ func (e *Engine) bubble() {
 	e.lastRun = -1
 	e.rng = world.NewRng(w.Sched.Seed)
 	e.outs = make([]*tasks.Outcome, len(w.Tasks))
-	e.defBudget = 5_000_000
+	e.defBudget = 2_000_000
 	e.pctChange = map[int64]bool{}
 	if w.Sched.Strategy == "pct" {
 		for i := 0; i < w.Sched.PCTDepth; i++ {
